@@ -427,3 +427,68 @@ Proof.
   split; [reflexivity|]. split; [|vm_compute; reflexivity].
   eexists. split; [reflexivity|]. split; discriminate.
 Qed.
+
+(* ---------- histories ---------- *)
+
+Fixpoint password_after (hash_ok : bytes -> bool) (stored : bytes) (h : list step) : bytes :=
+  match h with
+  | [] => stored
+  | SetPassword opt fresh :: r => password_after hash_ok (configure hash_ok stored opt fresh) r
+  | Request _ :: r => password_after hash_ok stored r
+  end.
+
+Fixpoint requests_in (h : list step) : nat :=
+  match h with
+  | [] => O
+  | SetPassword _ _ :: r => requests_in r
+  | Request _ :: r => S (requests_in r)
+  end.
+
+Section HistoryProofs.
+  Variable St D : Type.
+  Variable inner : nat -> meth -> St -> request -> St * (N * D).
+  Variable av : bytes -> bytes -> bool.
+  Variable hash_ok : bytes -> bool.
+  Variable a : app.
+
+  Let run := run_history St D inner av hash_ok a.
+
+  (* the response to a request inside a history is the single-request response computed with
+     the password configured by the option changes before it: earlier requests (successful
+     logins included) leave no trace in the verdict *)
+  Lemma history_stateless h1 : forall stored s q h2,
+    exists s1, nth_error (run stored s (h1 ++ Request q :: h2)) (requests_in h1)
+               = Some (snd (handle St D inner av (password_after hash_ok stored h1) a s1 q)).
+  Proof.
+    induction h1 as [|[opt fresh|q0] h1 IH]; intros stored s q h2; simpl.
+    - exists s. reflexivity.
+    - apply IH.
+    - apply IH.
+  Qed.
+End HistoryProofs.
+
+Lemma history_revoked_refused (St D : Type) (inner : nat -> meth -> St -> request -> St * (N * D))
+      av hash_ok stored s h1 q h2 :
+  not_static mitmweb q -> creds_invalid av (password_after hash_ok stored h1) q ->
+  exists rs, nth_error (run_history St D inner av hash_ok mitmweb stored s (h1 ++ Request q :: h2)) (requests_in h1) = Some rs
+    /\ rs_cookie rs = false /\ (forall d, rs_body rs <> BInner d)
+    /\ (rs_status rs = 400 \/ rs_status rs = 403 \/ rs_status rs = 404 \/ rs_status rs = 405)%N.
+Proof.
+  intros HS HC.
+  destruct (history_stateless St D inner av hash_ok mitmweb h1 stored s q h2) as [s1 E].
+  eexists. split; [exact E|].
+  destruct (unauthenticated_refused St D inner av (password_after hash_ok stored h1) s1 q HS HC) as (_ & R2 & R3 & R4).
+  auto.
+Qed.
+
+(* witness: log in with the old password, rotate, present the old password again *)
+Definition old_pw : bytes := [x6f;x6c;x64].
+Definition new_pw : bytes := [x6e;x65;x77].
+Definition q_with_token (pw : bytes) : request := Build_request (Some 9%nat) GET None None [Some pw] false None.
+Definition rotate_history : list step :=
+  [SetPassword old_pw []; Request (q_with_token old_pw); SetPassword new_pw []; Request (q_with_token old_pw); Request (q_with_token new_pw)].
+
+Lemma history_nonvacuous :
+  map rs_status (run_history nat unit unit_inner no_argon (fun _ => true) mitmweb secret O rotate_history)
+  = [200; 403; 200]%N.
+Proof. vm_compute. reflexivity. Qed.
